@@ -85,6 +85,28 @@ pub struct Session {
     close_notify: Arc<Notify>,
 }
 
+/// Append padding (cmdWaste) frames that occupy exactly `total` bytes on the wire, headers
+/// included (`total` >= one header). A frame carries at most 65535 payload bytes, so larger
+/// paddings are spread over several frames instead of truncating the length field.
+fn put_waste_frames(dst: &mut BytesMut, mut total: usize) {
+    use crate::protocol::HEADER_OVERHEAD_SIZE;
+    use bytes::BufMut;
+
+    while total >= HEADER_OVERHEAD_SIZE {
+        let mut payload = (total - HEADER_OVERHEAD_SIZE).min(u16::MAX as usize);
+        let left = total - HEADER_OVERHEAD_SIZE - payload;
+        if left > 0 && left < HEADER_OVERHEAD_SIZE {
+            // leave room for the header of the last frame
+            payload -= HEADER_OVERHEAD_SIZE - left;
+        }
+        dst.put_u8(Command::Waste as u8);
+        dst.put_u32(0); // stream_id = 0
+        dst.put_u16(payload as u16);
+        dst.put_bytes(0, payload); // padding data (zeros)
+        total -= HEADER_OVERHEAD_SIZE + payload;
+    }
+}
+
 impl Session {
     async fn handle_io_error(&self, context: &str, error: std::io::Error) -> AnyTlsError {
         #[cfg(anytls_verif)]
@@ -947,8 +969,7 @@ impl Session {
     /// Write buffer to connection with padding applied
     async fn write_with_padding(&self, mut buffer: BytesMut) -> Result<()> {
         use crate::padding::CHECK_MARK;
-        use crate::protocol::{Command, HEADER_OVERHEAD_SIZE};
-        use bytes::BufMut;
+        use crate::protocol::HEADER_OVERHEAD_SIZE;
 
         if !self.send_padding {
             // No padding, write directly
@@ -1068,16 +1089,8 @@ impl Session {
                 let padding_len = size.saturating_sub(remain_payload_len + HEADER_OVERHEAD_SIZE);
 
                 if padding_len > 0 {
-                    // Create padding frame (cmdWaste)
-                    let mut padding_frame =
-                        BytesMut::with_capacity(HEADER_OVERHEAD_SIZE + padding_len);
-                    padding_frame.put_u8(Command::Waste as u8);
-                    padding_frame.put_u32(0); // stream_id = 0
-                    padding_frame.put_u16(padding_len as u16);
-                    padding_frame.put_slice(&vec![0u8; padding_len]); // padding data (zeros)
-
-                    // Combine payload and padding
-                    buffer.put_slice(&padding_frame);
+                    // Append padding (cmdWaste) so that the record is exactly `size` bytes
+                    put_waste_frames(&mut buffer, HEADER_OVERHEAD_SIZE + padding_len);
                 }
 
                 if let Err(e) = writer.write_all(&buffer).await {
@@ -1087,10 +1100,7 @@ impl Session {
             } else {
                 // This packet is all padding
                 let mut padding_frame = BytesMut::with_capacity(HEADER_OVERHEAD_SIZE + size);
-                padding_frame.put_u8(Command::Waste as u8);
-                padding_frame.put_u32(0); // stream_id = 0
-                padding_frame.put_u16(size as u16);
-                padding_frame.put_slice(&vec![0u8; size]); // padding data (zeros)
+                put_waste_frames(&mut padding_frame, HEADER_OVERHEAD_SIZE + size);
 
                 if let Err(e) = writer.write_all(&padding_frame).await {
                     return Err(self.handle_io_error("write_padding_frame_only", e).await);
